@@ -23,9 +23,11 @@ def main():
     os.makedirs(root)
     repo = f"{root}/repo"
     subprocess.run(["rsync", "-a", "--exclude=.git", "--exclude=/tests/data", "--exclude=/doc", "/repo/", repo + "/"], check=True)
-    if os.path.isdir("/var/tmp/whverif/build"):
+    import glob
+    done = sorted(glob.glob("/var/tmp/whverif/build-*/.wvcomplete"), key=os.path.getmtime)
+    if done:
         os.makedirs(f"{root}/scratch")
-        subprocess.run(["cp", "-a", "/var/tmp/whverif/build", f"{root}/scratch/build"], check=True)
+        subprocess.run(["cp", "-a", os.path.dirname(done[-1]), f"{root}/scratch/build-seed"], check=True)
     if change.startswith("sed:"):
         _, f, expr = change.split(":", 2)
         before = open(f"{repo}/{f}").read()
